@@ -39,7 +39,14 @@ func init() {
 				idle = 12
 			}
 			ia, _ := json.Marshal(map[string]int{"runs": idle})
-			return []core.Batch{{Name: "long-history", Args: a, Timeout: 2400}, {Name: "stress", Args: sa, Timeout: 1200}, {Name: "idle", Args: ia, Timeout: 1200}}
+			bs := []core.Batch{{Name: "long-history", Args: a, Timeout: 2400}, {Name: "stress", Args: sa, Timeout: 1200}, {Name: "idle", Args: ia, Timeout: 1200}}
+			if tier == "thorough" {
+				// one more wrap of the id space with 300 idle residents holding the ids 7..306 all along: right after the
+				// wrap the search for a free id has to pass more than 255 ids in a row that are still held
+				ra, _ := json.Marshal(map[string]int{"connections": 66000, "residents": 300})
+				bs = append(bs, core.Batch{Name: "long-history-residents", Args: ra, Timeout: 2400})
+			}
+			return bs
 		},
 		RunExtra: func(b core.Batch, em *core.Emitter) {
 			if b.Name == "stress" {
@@ -50,7 +57,7 @@ func init() {
 				runIdle(b, em)
 				return
 			}
-			runLong(b, em)
+			runLong(b, em) // "long-history" and "long-history-residents"
 		},
 	})
 }
@@ -657,9 +664,10 @@ func runCase(c *core.Case) {
 func runLong(b core.Batch, em *core.Emitter) {
 	var a struct {
 		Connections int `json:"connections"`
+		Residents   int `json:"residents"`
 	}
 	json.Unmarshal(b.Args, &a)
-	id := "C13/long-history"
+	id := "C13/" + b.Name
 	core.SafeCase(em, id, func() {
 		em.Begin(id, nil)
 		srv, err := fixture.New(fixture.Options{})
@@ -679,12 +687,31 @@ func runLong(b core.Batch, em *core.Emitter) {
 			}
 			long = append(long, cl)
 		}
+		// idle residents: logged in once, never looked at again (their connections forget what they are sent), but
+		// registered - and checked in the registry - throughout
+		var resid []*refclient.Client
+		for i := 0; i < a.Residents; i++ {
+			cl, err := refclient.LoginAs(srv, fmt.Sprintf("10.13.%d.%d:1", 201+i/250, 1+i%250), "guest", "", fmt.Sprintf("Res%d", i))
+			if err != nil {
+				em.Emit(core.Result{Case: id, Verdict: core.Inconclusive, Msg: err.Error()})
+				return
+			}
+			resid = append(resid, cl)
+		}
+		srv.Quiesce(refclient.Watchdog)
+		for _, cl := range resid {
+			cl.Conn.SetDiscardOutput(true)
+		}
+		rids := map[int]uint16{}
 		ul, _ := long[0].Call(300)
 		us, _ := refclient.UserList(ul)
 		for _, u := range us {
 			var k int
 			if _, err := fmt.Sscanf(string(u.Name), "Long%d", &k); err == nil {
 				ids[k] = u.ID
+			}
+			if _, err := fmt.Sscanf(string(u.Name), "Res%d", &k); err == nil {
+				rids[k] = u.ID
 			}
 		}
 		obs := map[string]int{}
@@ -738,6 +765,14 @@ func runLong(b core.Batch, em *core.Emitter) {
 					return
 				}
 			}
+			for k, cl := range resid {
+				got := byConn[any(cl.Conn)]
+				if len(got) != 1 || got[0] != rids[k] {
+					fail("C13/long/live-user-lost", fmt.Sprintf("%s after %d connections: idle resident %d (id %d) is registered under ids %v — a newer connection took over its id", label, total.Load(), k, rids[k], got))
+					return
+				}
+			}
+			obs["residents_checked"] += len(resid)
 			// behaviourally: a private message to each long-lived id reaches exactly that client
 			for k := range long {
 				from := long[(k+1)%K]
